@@ -1141,4 +1141,69 @@ theorem invalidate_inv (truth truth' : Nat → Box3) (c : Cache) (ks : List (Opt
     exact hnot (hch e.1 hne)
   rw [hc e hm, this]
 
+
+/-! ## collapsed control points: the curve is its chord -/
+
+theorem collapsed_cubic_on_chord (s e : V3) (t : Rat) (h0 : 0 ≤ t) (h1 : t ≤ 1) :
+    bezier4V s s e e t = segPoint s (.lineTo e) (3 * t ^ 2 - 2 * t ^ 3) ∧ 0 ≤ 3 * t ^ 2 - 2 * t ^ 3 ∧ 3 * t ^ 2 - 2 * t ^ 3 ≤ 1 := by
+  refine ⟨?_, ?_, ?_⟩
+  · simp only [bezier4V, bezier4, segPoint, V3.mk.injEq]; refine ⟨by ring, by ring, by ring⟩
+  · have : 3 * t ^ 2 - 2 * t ^ 3 = t ^ 2 * (3 - 2 * t) := by ring
+    rw [this]; exact mul_nonneg (by positivity) (by linarith)
+  · have : 1 - (3 * t ^ 2 - 2 * t ^ 3) = (1 - t) ^ 2 * (1 + 2 * t) := by ring
+    have h : 0 ≤ (1 - t) ^ 2 * (1 + 2 * t) := mul_nonneg (by positivity) (by linarith)
+    linarith
+
+theorem collapsed_quadratic_on_chord (s e : V3) (t : Rat) (h0 : 0 ≤ t) (h1 : t ≤ 1) :
+    (bezier3V s s e t = segPoint s (.lineTo e) (t ^ 2) ∧ 0 ≤ t ^ 2 ∧ t ^ 2 ≤ 1) ∧
+    (bezier3V s e e t = segPoint s (.lineTo e) (2 * t - t ^ 2) ∧ 0 ≤ 2 * t - t ^ 2 ∧ 2 * t - t ^ 2 ≤ 1) := by
+  refine ⟨⟨?_, by positivity, by nlinarith⟩, ⟨?_, by nlinarith, by nlinarith⟩⟩
+  · simp only [bezier3V, bezier3, segPoint, V3.mk.injEq]; refine ⟨by ring, by ring, by ring⟩
+  · simp only [bezier3V, bezier3, segPoint, V3.mk.injEq]; refine ⟨by ring, by ring, by ring⟩
+
+/-- one round of `add_bezier4p` keeps the geometry: every point of the cubic curve is a point of one of the segments the
+    round appends (pen position tracked) -/
+theorem addBezier4Step_geometry (near same : V3 → V3 → Bool) (hnear : ∀ a b, near a b = true → a = b)
+    (hsame : ∀ a b, same a b = true → a = b) (pen s c1 c2 e : V3) (t : Rat) (h0 : 0 ≤ t) (h1 : t ≤ 1) :
+    ∃ sc ∈ segsFrom pen (addBezier4Step near same pen s c1 c2 e), ∃ u : Rat, 0 ≤ u ∧ u ≤ 1 ∧
+      bezier4V s c1 c2 e t = segPoint sc.1 sc.2 u := by
+  by_cases hl : (same s c1 && same e c2) = true
+  · have hl' := hl
+    simp only [Bool.and_eq_true] at hl'
+    have e1 := hsame s c1 hl'.1
+    have e2 := hsame e c2 hl'.2
+    subst e1; subst e2
+    obtain ⟨hc, u0, u1⟩ := collapsed_cubic_on_chord s e t h0 h1
+    by_cases hn : near s pen = true
+    · have := hnear s pen hn; subst this
+      exact ⟨(s, .lineTo e), by simp [addBezier4Step, hn, hl, segsFrom], _, u0, u1, hc⟩
+    · exact ⟨(s, .lineTo e), by simp [addBezier4Step, hn, hl, segsFrom, Cmd.endPoint], _, u0, u1, hc⟩
+  · by_cases hn : near s pen = true
+    · have := hnear s pen hn; subst this
+      exact ⟨(s, .curve4To c1 c2 e), by simp [addBezier4Step, hn, hl, segsFrom], t, h0, h1, rfl⟩
+    · exact ⟨(s, .curve4To c1 c2 e), by simp [addBezier4Step, hn, hl, segsFrom, Cmd.endPoint], t, h0, h1, rfl⟩
+
+theorem addBezier3Step_geometry (near same : V3 → V3 → Bool) (hnear : ∀ a b, near a b = true → a = b)
+    (hsame : ∀ a b, same a b = true → a = b) (pen s c e : V3) (t : Rat) (h0 : 0 ≤ t) (h1 : t ≤ 1) :
+    ∃ sc ∈ segsFrom pen (addBezier3Step near same pen s c e), ∃ u : Rat, 0 ≤ u ∧ u ≤ 1 ∧
+      bezier3V s c e t = segPoint sc.1 sc.2 u := by
+  obtain ⟨⟨q1, a0, a1⟩, ⟨q2, b0, b1⟩⟩ := collapsed_quadratic_on_chord s e t h0 h1
+  have key : ∀ cmd : Cmd, (s, cmd) ∈ segsFrom pen ((if near s pen = true then [] else [Cmd.lineTo s]) ++ [cmd]) := by
+    intro cmd
+    by_cases hn : near s pen = true
+    · have := hnear s pen hn; subst this; simp [hn, segsFrom]
+    · simp [hn, segsFrom, Cmd.endPoint]
+  by_cases hl : (same s c || same e c) = true
+  · have hmem : (s, Cmd.lineTo e) ∈ segsFrom pen (addBezier3Step near same pen s c e) := by
+      simpa [addBezier3Step, hl] using key (.lineTo e)
+    simp only [Bool.or_eq_true] at hl
+    rcases hl with h | h
+    · have := hsame s c h; subst this
+      exact ⟨_, hmem, _, a0, a1, q1⟩
+    · have := hsame e c h; subst this
+      exact ⟨_, hmem, _, b0, b1, q2⟩
+  · have hmem : (s, Cmd.curve3To c e) ∈ segsFrom pen (addBezier3Step near same pen s c e) := by
+      simpa [addBezier3Step, hl] using key (.curve3To c e)
+    exact ⟨_, hmem, t, h0, h1, rfl⟩
+
 end EzdxfVerif.BBox.Lemmas
